@@ -226,9 +226,9 @@ pub mod {name} {{
    use ascent::lattice::{{Dual, set::Set}};
    use crate::common::*;
    {body.replace(chr(10), chr(10) + '   ')}
-   pub struct Inst {{ p: {kw.get('struct', 'Prog')}, pool: Option<ascent::rayon::ThreadPool> }}
+   pub struct Inst {{ p: {kw.get('struct', 'Prog')}, pool: Option<std::sync::Arc<ascent::rayon::ThreadPool>> }}
    pub fn make(pool: Option<usize>) -> Box<dyn Driver> {{
-      let pool = pool.map(|n| ascent::rayon::ThreadPoolBuilder::new().num_threads(n).build().unwrap());
+      let pool = pool.map(crate::common::pool_of);
       let p = match &pool {{ Some(pl) => pl.install(|| Default::default()), None => Default::default() }};
       Box::new(Inst {{ p, pool }})
    }}
